@@ -341,9 +341,10 @@ MANIFEST = {
                   "/repo on every run by evaluating them inside Coq on the documents and CASes of both chains as the "
                   "implementation ran them.",
     "level_note": "inline_outline (the JSON view of a well-formed CAS determines its XMI view) and both reader = denotation "
-                  "agreements are theorems; the XMI reader leg is imported from C01 (C01_xmi_roundtrip_partial: that the "
-                  "XMI reader succeeds is a hypothesis). Premises left are booleans: wf_convb / wf_rtb on the CAS "
-                  "(counted per case), doc_ok_json of the written JSON document (C02), 0 < next id.",
+                  "agreements are theorems; the XMI reader leg is imported from C01 (C01_xmi_roundtrip in the exists form), "
+                  "so the _total variants carry no hypothesis about a reader or a document. Premises left are booleans on the "
+                  "input CAS: wf_convb, typed_jsonb, wf_rt_totalb (counted per case), 0 < next id. Chain A is stated over the CAS "
+                  "after the JSON save (that saving leaves canon_xmi unchanged is checked per case by the oracle).",
     "technique": "Coq proof over executable Gallina models + in-Coq behavioural correspondence + direct oracle",
     "design_ref": "DESIGN.md section 5, C16",
 }
